@@ -325,6 +325,15 @@ class Engine:
     def feasible(self, ctx: Ctx, cond) -> bool:
         """Path pruning only (an over-approximation is sound): quantifier-free part of the path condition."""
         qf = [p for p in ctx.pc if not has_quantifier(p)]
+        if ctx.bound:
+            # inside a comprehension / set-building loop: instances of the universally quantified facts of the path
+            # condition at the bound constants (sound: instances of assumptions), so that preconditions stated over all
+            # elements of a sequence decide branches on the arbitrary element
+            for p in ctx.pc:
+                if z3.is_quantifier(p) and p.is_forall() and p.num_vars() == 1:
+                    for bc in ctx.bound:
+                        if bc.sort() == p.var_sort(0):
+                            qf.append(z3.substitute_vars(p.body(), bc))
         key = (tuple(p.get_id() for p in qf), cond.get_id())
         hit = self._feas_cache.get(key)
         if hit is not None:
